@@ -378,6 +378,8 @@ def _differential(probe, replay=None):
     if again.get("digest") != base["digest"]:
         failures.append(dict(clause="probe_is_deterministic", probe=probe))
     hists = [replay["history"]] if replay else ([51] if probe in NEARMISS else []) + [1000 * seed0 + 17 * k + (PROBES + NEARMISS).index(probe) for k in range(n_hist)]
+    if not replay and probe in PROBES:      # histories that end with a sibling of the probe's own design (same primary description)
+        hists += [f"sib{1000 * seed0 + 31 * k + PROBES.index(probe)}" for k in range(3 if tier != "thorough" else 12)]
     for h in hists:
         evals += 1
         r = _run_probe(probe, h)
@@ -389,7 +391,8 @@ def _differential(probe, replay=None):
                                  alone=str({k: base["result"][k] for k in diff})[:400], after=str({k: r["result"].get(k) for k in diff})[:400]))
     return dict(evaluations=evals, distinct_nontrivial=len(hists) + 1, exhaustive=False, failures=failures[:4],
                 rule="the probed operation (with near-miss accept/reject verdicts where it has any) runs in a fresh interpreter alone and after "
-                     "a seeded random history of 2-6 other operations (netlists, dies, allocations, recognitions, SAT encodings under both "
+                     "a seeded random history of 2-6 other operations, optionally followed by a SIBLING of the probed design (same die outline / module names / trunk / "
+                     "constraint left-hand sides, everything else different) (netlists, dies, allocations, recognitions, SAT encodings under both "
                      "constructions, legaliser models, grid decompositions, rejected designs) on designs scaled by 10^-3..10^3; canonical digest "
                      "(12 significant digits, auxiliary SAT variables renamed by first appearance) must be identical",
                 samples=[dict(probe=probe, digest=base["digest"])], bound=f"{len(hists)} histories")
